@@ -440,3 +440,52 @@ Theorem documented_shape a items lead : sfdl_dom a = true ->
 Proof.
   intros Hd Hl Hg Ht. apply structure_of_tokens; [exact Hd|]. rewrite (elements_layout_irrelevant items lead Hl Hg). exact Ht.
 Qed.
+
+(* ---------- what is never accepted ---------- *)
+Lemma vitems_suffix (v : list text -> res (list text)) :
+  (forall els rest, v els = Ok rest -> exists pre, els = (pre ++ [cp_gt] :: rest)%list) ->
+  forall g els r2, vitems v g els = Ok r2 -> exists pre, els = (pre ++ r2)%list.
+Proof.
+  intro Hv. induction g as [|g IH]; intros els r2 H; [discriminate|]. cbn [vitems] in H.
+  destruct els as [|y r]; [discriminate|]. destruct (negb (is_bracket y)); [discriminate|].
+  destruct (text_eqb y [cp_gt]).
+  - injection H as <-. exists []. reflexivity.
+  - destruct (v (y :: r)) as [rest|] eqn:E; [|discriminate]. cbn [bind] in H.
+    destruct (Hv _ _ E) as [p1 E1]. destruct (IH _ _ H) as [p2 E2]. rewrite E1, E2. exists (p1 ++ [cp_gt] :: p2)%list. rewrite <- app_assoc. reflexivity.
+Qed.
+
+(* the validation only accepts elements that start with '<' and a list tag or a known data item, and what it consumes ends with the closing '>' *)
+Theorem validate_accepts_only : forall f els rest, validate f els = Ok rest ->
+  (exists item r, els = [cp_lt] :: item :: r /\ (item = T_L \/ attr_exists item = true)) /\
+  (exists pre, els = (pre ++ [cp_gt] :: rest)%list).
+Proof.
+  induction f as [|f IH]; intros els rest H; [discriminate|].
+  destruct els as [|open [|item r1]]; [discriminate H|cbn [validate] in H; destruct (negb (text_eqb open [cp_lt])); discriminate H|].
+  rewrite validate_S in H.
+  destruct (text_eqb open [cp_lt]) eqn:Eo; [|discriminate]. cbn [negb] in H. apply text_eqb_eq in Eo. subst open.
+  destruct (text_eqb item T_L) eqn:EL; cbn [negb] in H.
+  - apply text_eqb_eq in EL. subst item. split; [exists T_L, r1; split; [reflexivity|left; reflexivity]|].
+    destruct r1 as [|x r1']; [discriminate|].
+    destruct (vitems (validate f) (S (length (x :: r1'))) (if is_bracket x then x :: r1' else r1')) as [r2|] eqn:Ev; [|discriminate]. cbn [bind] in H.
+    destruct r2 as [|close r3]; [discriminate|]. destruct (text_eqb close [cp_gt]) eqn:Ec; [|discriminate]. injection H as <-.
+    apply text_eqb_eq in Ec. subst close.
+    destruct (vitems_suffix (validate f) (fun e r Hr => proj2 (IH e r Hr)) _ _ _ Ev) as [pre Ep].
+    destruct (is_bracket x).
+    + exists ([cp_lt] :: T_L :: pre). cbn [app]. rewrite Ep. reflexivity.
+    + exists ([cp_lt] :: T_L :: x :: pre). cbn [app]. rewrite Ep. reflexivity.
+  - destruct (attr_exists item) eqn:EA; [|discriminate]. cbn [bind] in H.
+    split; [exists item, r1; split; [reflexivity|right; exact EA]|].
+    destruct r1 as [|close r3]; [discriminate|]. destruct (text_eqb close [cp_gt]) eqn:Ec; [|discriminate]. injection H as <-.
+    apply text_eqb_eq in Ec. subst close. exists [[cp_lt]; item]. reflexivity.
+Qed.
+
+(* ... so no structure is generated from a text whose elements are not a closed, known definition *)
+Corollary structure_only_of_closed src s : sfdl_structure src = Ok s ->
+  exists item r pre rest, elements_of src = [cp_lt] :: item :: r /\ (item = T_L \/ attr_exists item = true) /\
+                          elements_of src = (pre ++ [cp_gt] :: rest)%list.
+Proof.
+  unfold sfdl_structure, tokens_of. intro H.
+  destruct (validate (S (length (elements_of src))) (elements_of src)) as [rest|] eqn:E; [|discriminate].
+  destruct (validate_accepts_only _ _ _ E) as ((item & r & E1 & K) & (pre & E2)).
+  exists item, r, pre, rest. repeat split; assumption.
+Qed.
